@@ -14,3 +14,4 @@ ASSUMPTIONS = [
     "dict iteration order is arbitrary but fixed during one loop",
     "datetime.timestamp() is a function of the datetime value (uninterpreted here; refined under C08)",
 ]
+FUNCTIONS = FUNCTIONS + MEM_REFINEMENT  # MemoryStorage refines the abstract Storage contract
